@@ -449,6 +449,57 @@ func (p c17) Run(ctx *core.RunCtx) {
 	if ch.Chance("seeded-encryption", 1, 4) {
 		p.seededEncryption(ctx, params, key)
 	}
+	if ch.Chance("largest-ring-sparse-positions", 1, 150) {
+		p.largestRingPositions(ctx, key)
+	}
+}
+
+// largestRingPositions: the fixed-weight ternary sampler in the ring of the largest degree the library admits
+// (2^17, where the index of a position needs more than 16 bits): the non-zero coefficients fall everywhere.
+func (p c17) largestRingPositions(ctx *core.RunCtx, key []byte) {
+	c := ctx.Cached("c17/ring-2^17", func(*core.Xoshiro) any {
+		g := ring.NewNTTFriendlyPrimesGenerator(30, 1<<18)
+		q, err := g.NextAlternatingPrime()
+		if err != nil {
+			return err
+		}
+		r, err := ring.NewRing(1<<17, []uint64{q})
+		if err != nil {
+			return err
+		}
+		return r
+	})
+	r, ok := c.(*ring.Ring)
+	if !ok {
+		ctx.Harness("ring of degree 2^17: %v", c)
+	}
+	H := 2048 << uint(ctx.Ch.Draw("largest-ring-weight", 3))
+	prng, _ := sampling.NewKeyedPRNG(key)
+	s, err := ring.NewSampler(prng, r, ring.Ternary{H: H}, false)
+	if err != nil {
+		ctx.Harness("sampler: %v", err)
+	}
+	pol := s.ReadNew()
+	ctx.Count("oracle.positions-of-the-non-zeros", 1)
+	var quarters [4]int
+	nz := 0
+	for j, v := range pol.Coeffs[0] {
+		if v != 0 {
+			nz++
+			quarters[j>>15]++
+		}
+	}
+	if nz != H {
+		ctx.Fail("contract", "ternaryH|ReadNew|weight", "ring of degree 2^17: %d non-zero coefficients for H=%d", nz, H)
+		return
+	}
+	sd := math.Sqrt(float64(H) * 3 / 16)
+	for k, n := range quarters {
+		if math.Abs(float64(n)-float64(H)/4) > 8*sd+1 {
+			ctx.Fail("moments", "ternaryH|positions", "ring of degree 2^17, H=%d: the quarters of the polynomial hold %v non-zero coefficients (expected %d each, standard deviation %.1f): quarter %d is off by more than 8 of them", H, quarters, H/4, sd, k)
+			return
+		}
+	}
 }
 
 // seededEncryption: a secret-key encryptor bound to a keyed generator (WithPRNG) takes the public component of each
